@@ -559,6 +559,25 @@ func (w *World) serveCRL(cp *CertPlan, src *CRLSrc, isDelta bool) func(x *Exchan
 	}
 }
 
+// serveCRLSecond is the distribution point's answer to a second request for
+// the base list within one check: by now it serves an authentic, current list
+// (a newer publication, without freshest-CRL pointer).
+func (w *World) serveCRLSecond(cp *CertPlan, src *CRLSrc) func(x *Exchange, req *http.Request, body []byte, now time.Time) ([]byte, string) {
+	return func(x *Exchange, req *http.Request, body []byte, now time.Time) ([]byte, string) {
+		plan := &CRLPlan{SignerKind: "issuer"}
+		if src.Second == 2 {
+			plan.Entries = []EntryPlan{{Match: true, Reason: 1, RevIdx: 0}}
+		}
+		second := *src
+		second.BaseNum = src.BaseNum + 1
+		second.FrShape, second.DeltaURL = FrAbsent, nil
+		s := w.buildCRL(cp, &second, plan, false, now)
+		s.Origin = x.URL
+		x.Rec.Served = &CRLServed{Spec: s}
+		return s.DER, "application/pkix-crl"
+	}
+}
+
 // ---------- recording fetcher decorator and stub fetcher ----------
 
 // FetchRec is one observed Fetcher.Fetch call.
@@ -805,6 +824,13 @@ func (sc *RevScenario) planExchanges(nt *Net, altSeed uint32) {
 					}
 					nt.Plan(ck, x)
 					s.XBase = append(s.XBase, x)
+					var x2 *Exchange
+					if s.Second != 0 && !isRoot {
+						// the next request of this caller for the same URL
+						x2 = &Exchange{URL: s.URL, Kind: "crl", CertPos: cp.Pos, SrcIdx: i, Latency: lat(s.BaseLat), ReadCap: crlReadCap, Serve: w.serveCRLSecond(cp, s)}
+						nt.Plan(ck, x2)
+					}
+					s.XBase2 = append(s.XBase2, x2)
 					for j, du := range s.DeltaURL {
 						dx := &Exchange{URL: du, Kind: "delta", CertPos: cp.Pos, SrcIdx: i, Latency: lat(s.DeltaLat[j]), Fault: s.DeltaFault[j], ReadCap: crlReadCap}
 						if !isRoot {
